@@ -249,7 +249,7 @@ class simplify_chained_calls(FuncADLNodeTransformer):
 
         captured_arg = func_f.args.args[0].arg
         captured_body = func_f.body
-        new_select = function_call("SelectMany", [captured_body, func_g])
+        new_select = function_call("SelectMany", [captured_body, self.visit(func_g)])
         new_select_lambda = lambda_build(captured_arg, new_select)
         new_select_many = function_call("SelectMany", [seq, new_select_lambda])
         return new_select_many
